@@ -82,6 +82,32 @@ Theorem C02_step_rename_dir_inside : forall C w k r p q w' ep, RSync C w k r -> 
 Proof. exact step_rename_dir_inside. Qed.
 Print Assumptions C02_step_rename_dir_inside.
 
+(* Rename of a directory into the tree from outside (to a fresh name, repaired code): add_dirs over walk_dirs covers
+   the arrived directory and every directory below it *)
+Theorem C02_step_rename_dir_in : forall C, c_faults C = [] -> forall w k r p q w' ep, RSync C w k r -> npath p -> npath q ->
+  c_recursive C = true -> c_fix_movein C = true ->
+  N.land IN_MOVED_FROM (c_mask C) <> 0%N -> N.land IN_MOVED_TO (c_mask C) <> 0%N ->
+  apply_op w (Rename p q) = Some w' ->
+  flookup p (w_fs w) = Some ep -> f_dir ep = true -> ~ scope C p -> under p (c_root C) = false -> scope C q ->
+  flookup q (w_fs w) = None ->
+  let k1 := kernel_op k (w_fs w) (Rename p q) in
+  exists r' k' evs, read_batch C (w_fs w') (r, drainq k1, []) (k_queue k1) = Done (r', k', evs) /\ RSync C w' k' r'.
+Proof. exact step_rename_dir_in. Qed.
+Print Assumptions C02_step_rename_dir_in.
+
+(* Rename of a directory under a non-recursive watch, or entirely outside the tree (target absent or an empty
+   directory): both maps unchanged *)
+Theorem C02_step_rename_dir_plain : forall C w k r p q w' ep, RSync C w k r -> npath p -> npath q ->
+  N.land IN_MOVED_FROM (c_mask C) <> 0%N -> N.land IN_MOVED_TO (c_mask C) <> 0%N ->
+  apply_op w (Rename p q) = Some w' -> flookup p (w_fs w) = Some ep -> f_dir ep = true ->
+  p <> c_root C -> q <> c_root C -> under p (c_root C) = false ->
+  (c_recursive C = false \/ (~ scope C p /\ ~ scope C q)) ->
+  let k1 := kernel_op k (w_fs w) (Rename p q) in
+  exists r' k' evs, read_batch C (w_fs w') (r, drainq k1, []) (k_queue k1) = Done (r', k', evs) /\ RSync C w' k' r' /\
+    wfp r' = wfp r /\ pfw r' = pfw r.
+Proof. exact step_rename_dir_plain. Qed.
+Print Assumptions C02_step_rename_dir_plain.
+
 (* the re-key loop by itself: run on its own key list, every binding below src moves to the same suffix below dst
    (j2 of RK), _path_for_wd follows, nothing else changes (j1, j3), and no key below src is left *)
 Theorem C02_rekey_loop : forall src dst, src <> [] -> (forall rest, under src (dst ++ sep :: rest) = false) ->
@@ -121,10 +147,10 @@ Definition C02_cover_sequential_full : Prop :=
                          Cover C (w_fs w') k' r'.
 (* PROVED PART: the extra hypothesis is [ops_covered]: every applicable operation of the history is one of
    Touch / Write / Chmod / Unlink / Mkdir / Rmdir (not the root) / Rename of a file (any direction, replacing or not) /
-   Rename of a directory inside the tree to a fresh name (recursive watch).
-   NOT covered (kept in the full statement only): a directory moved into the tree from outside, a directory moved
-   out of the tree (Cover survives, WInv does not - finding F10), a directory renamed over an empty directory,
-   directory renames under a non-recursive watch or entirely outside the tree. *)
+   Rename of a directory inside the tree to a fresh name (recursive watch) / into the tree from outside to a fresh name
+   (recursive watch, repaired code) / under a non-recursive watch / entirely outside the tree.
+   NOT covered (kept in the full statement only): a directory moved out of the tree (Cover survives, WInv does not -
+   finding F10), a directory of the tree renamed over an empty directory of the tree, operations on the root itself. *)
 Theorem C02_cover_sequential_partial : forall C, c_faults C = [] -> forall ops, mask_ok C -> forall w k r,
   RSync C w k r -> ops_covered C w ops ->
   exists w' k' r', rrun C w k r ops = Some (w', k', r') /\ RSync C w' k' r'.
@@ -234,5 +260,27 @@ Proof.
   eapply ops_covered_cons; [vm_compute; reflexivity | apply co_quiet; [exact I | now apply Na] |].
   eapply ops_covered_cons; [vm_compute; reflexivity | apply co_rmdir; [now apply Nb | vm_compute; discriminate] |].
   eapply ops_covered_cons; [vm_compute; reflexivity | apply co_rmdir; [now apply Na | vm_compute; discriminate] |].
+  exact I.
+Qed.
+
+(* the directory moves: entirely outside the tree, then into the tree *)
+Example C02_ops_covered_dir_moves_nonvacuous :
+  ops_covered (cfgx true true) w0
+    [Rename (sub (sub pO 100) 101) (sub pO 101); Rename (sub pO 100) (sub pR 100)].
+Proof.
+  assert (GR : gpath pR) by (split; [discriminate | reflexivity]).
+  assert (GO : gpath pO) by (split; [discriminate | reflexivity]).
+  assert (Na : forall n, valid_name [n] = true -> npath (sub pR n)) by (intros; now apply npath_sub).
+  assert (No : forall n, valid_name [n] = true -> npath (sub pO n)) by (intros; now apply npath_sub).
+  assert (Nb : forall m n, valid_name [m] = true -> valid_name [n] = true -> npath (sub (sub pO m) n)).
+  { intros. apply npath_sub; [apply npath_gpath; now apply No | assumption]. }
+  eapply ops_covered_cons; [vm_compute; reflexivity | |].
+  { eapply co_rename_dir_plain; try (now apply No); try (now apply Nb); try (vm_compute; reflexivity);
+      try (vm_compute; discriminate).
+    right. split; intros [H|H]; vm_compute in H; discriminate. }
+  eapply ops_covered_cons; [vm_compute; reflexivity | |].
+  { eapply co_rename_dir_in; try (now apply No); try (now apply Na); try reflexivity; try (vm_compute; reflexivity);
+      try (right; vm_compute; reflexivity).
+    intros [H|H]; vm_compute in H; discriminate. }
   exact I.
 Qed.
